@@ -41,6 +41,11 @@ CHECKS = {
    text="Proof (partial): on the model of bondmachine.VM.Step, stepping the processors in any complete order gives the state Net.Tick.tick computes, any two complete orders agree, and in every interleaving of two simulations each ends in the state of its solo run. The model is tied to the Go simulator by per-tick full-state comparison, and the simulator itself is run under forced start orders of the processor workers (hook), GOMAXPROCS 1-16 and concurrent simulations, comparing per-tick digests. Not proved: absence of data races (Go memory model) - the race detector is run in the thorough tier as supporting evidence; the token/answer barrier of VM.Step is exercised, not modelled.",
    design_ref="DESIGN.md section 5, C09",
    note="Trusted: Coq kernel; Isa/Sim.v and Net/Tick.v as models (tied by correspondence); harness c09/sim commands; hook commit 6ef07ff."),
+ "C04": dict(
+   technique="Coq proof of an inductive invariant over the product of producer/consumer protocol automata, parametric in the number of consumers and the schedule, for both implementations; automata tied to the Go simulator and to the emitted Verilog (under a Coq Verilog semantics) by following observed schedules",
+   text="Proof (partial by hypothesis): for every fan-out k, every schedule of IO / non-IO instructions and every data, the simulator's protocol (SimSys) and the hardware's (HdlSys) keep an inductive invariant that implies: each consumer's stream is a prefix of the offered stream and at most one value behind, the producer passes r2owa only when every consumer holds the value, a consumer passes i2rw only by capturing. The schedule hypotheses s_ok/h_ok (no re-read while the previous capture is pending and valid is up; no new offer while received is up) are necessary - the unrestricted statements are refuted by vm_compute witnesses (finding F2, recorded as known findings c04_not_well_spaced_sim/hdl). Corollaries for one consumer: fixed padding >= 1 (simulator), >= 1 producer / >= 2 consumer (hardware) keep every execution inside the hypotheses. Liveness is not claimed.",
+   design_ref="DESIGN.md section 5, C04",
+   note="Trusted: Coq kernel; Net/Handshake.v automata (hand-derived from op_r2owa.go, op_i2rw.go, deferred.go, vm.go and the Verilog templates) tied by flag-level comparison on every tick/clock of generated machines; Vlog.Sem for the hardware half."),
 }
 NOT_APPLICABLE = []
 
